@@ -41,7 +41,7 @@ def _five(seq):
     def f():
         o = SP(seq)
         return tuple(fnum(x) for x in (o.get_kappa(), o.get_delta(), o.get_deltaMax(), o.get_SCD(), o.get_Omega()))
-    return call(f, seconds=60)
+    return call(f, seconds=60 if len(seq) < 500 else 1200)
 
 
 def build(ctx):
@@ -77,6 +77,25 @@ def build(ctx):
         tl = clist('(%s, %s, %s, %s)' % (cstr(t), cbool(f[0]), cbool(f[1]), tup(vals[t][1])) for _, f, t in ts)
         cases.append(Case('(%s, %s, %s)' % (cstr(s), tup(a[1]), tl), d, key=s,
                           nontrivial=(any(t != s for _, _, t in ts) and any(c in 'KRDE' for c in s))))
+    # chains longer than 1000 residues (numpy abbreviates the text of such arrays; the in-Coq model is too slow here, so the
+    # relation is checked on the implementation's values only)
+    longs = []
+    for i in range(ctx.pick(1, 6)):
+        n = rng.randint(1001, 1300)
+        x = ''.join(rng.choice('KRDEGSAQPTNKE') for _ in range(n))
+        if i % 2 == 0:
+            x = 'KRK' + x[3:-3] + 'GSG'
+        longs.append(x)
+    lj = [(x, nm, t) for x in longs for nm, _, t in transforms(rng, x) if nm in ('reverse', 'invert', 'reverse+invert', 'respell')]
+    lu = sorted({x for x, _, _ in lj} | {t for _, _, t in lj})
+    lv = dict(zip(lu, pmap(_five, lu, chunk=1)))
+    for x, nm, t in lj:
+        a, b = lv[x], lv[t]
+        idx = [0, 1, 2, 3] if nm == 'respell' else range(5)
+        if a[0] != 'ok' or b[0] != 'ok' or any(abs(a[1][i] - b[1][i]) > 1e-9 * max(1, abs(a[1][i])) for i in idx):
+            ctx.direct_failures.append({'x': x, 'transform': nm, 'Tx': t, 'kappa_delta_dmax_scd_omega(x)': list(a), 'same(Tx)': list(b),
+                                        'why': 'a chain of more than 1000 residues: parameters differ under the transform'})
+    ctx.notes['long_chain_pairs'] = len(lj)
     ctx.notes['metamorphic_pairs'] = len(jobs)
     return [CaseSet('C05', IMPORTS, 'string * vals5 * list (string * bool * bool * vals5)', 'check_c05', cases, shard=40)]
 
